@@ -1,6 +1,6 @@
 RC = "crates/tower-resilience-reconnect/src/"
 RT = "crates/tower-resilience-retry/src/"
-MUT = [("sub", "R16-mut-self", r"\bself\b", "self_", None), ("inject", None, "start", "let mut self_ = self;")]
+MUT = [("sub", "R16-mut-self", r"\bself\b", "self_", -1), ("inject", None, "start", "let mut self_ = self;")]
 WRAP = ("wrapcalls", "R6-closure-wrap", r"Arc::new", "vx_wrap()", 1)
 LISTEN = ("wrapcalls", "R6-closure-wrap", r"FnListener::new", "vx_wrap::<Listener>()", 1)
 def setter(file, *extra):
